@@ -5,6 +5,15 @@ package c14
 // the draws towards existing ids and lets the generator recognise - and avoid by
 // construction - the input classes of known defects. The prediction is never used as
 // an oracle.
+//
+// Input classes: requests drawn one by one (drawOp), a scenario prefix (a template with 0-3
+// tasks), a steered tail "rename / template update of an enabled task, then restart", and a
+// steered tail "run-time fault": an enabled task running a fragile script (created, or an
+// existing plain task made so), 0-2 accepted-looking updates that leave id and status alone
+// (script, dbrps, vars: the stored definition moves away from the running one), a fatal
+// feed on a db.rp the RUNNING execution listens on, 0-2 more requests. Feeds are also drawn
+// anywhere by drawOp (db.rp steered to a running fragile execution or any of the pool;
+// 1-4 points with one time: 1-2 are processed, 3-4 are fatal).
 
 import (
 	"os"
@@ -138,7 +147,7 @@ func predict(m *model, op Op) prediction {
 			return prediction{accept: true, known: "template-changed-without-rename"}
 		}
 		return prediction{accept: true}
-	case "delete", "tdelete":
+	case "delete", "tdelete", "feed":
 		return prediction{accept: true}
 	case "tcreate":
 		if op.ID == badTmplID || op.ID == "" || op.Script == "" || isBadScript(op.Script) {
@@ -325,7 +334,7 @@ func drawVars(t *rapid.T, templated bool) map[string]Var {
 func drawPlainScript(t *rapid.T, r *kit.Rec) string {
 	switch k := rapid.IntRange(0, 19).Draw(t, "scriptkind"); {
 	case k < 9:
-		return pick(t, "stream", []string{sStream0, sStream1})
+		return pick(t, "stream", []string{sStream0, sStream1, sFragile, sFragile2})
 	case k < 11:
 		return sStreamD
 	case k < 13:
@@ -348,8 +357,10 @@ func drawTmplScript(t *rapid.T) string {
 	switch k := rapid.IntRange(0, 19).Draw(t, "tscriptkind"); {
 	case k < 6:
 		return tIntTh
-	case k < 9:
+	case k < 8:
 		return tWindow
+	case k < 10:
+		return tFragile
 	case k < 12:
 		return tFloatTh
 	case k < 14:
@@ -434,8 +445,35 @@ func drawTUpdate(t *rapid.T, sh *model) Op {
 	return op
 }
 
+// fragileRunning lists the tasks of the shadow catalogue whose running execution a fatal feed
+// can end (sorted).
+func fragileRunning(sh *model) []string {
+	var out []string
+	for _, id := range sortedKeys(sh.tasks) {
+		if tk := sh.tasks[id]; tk.running() && isFragile(tk.RunScript) {
+			out = append(out, id)
+		}
+	}
+	return out
+}
+
+// drawFeed: points written to a db.rp - mostly the one a running fragile execution listens
+// on, mostly more points with one time than it accepts; also feeds nobody listens to and
+// feeds that are processed.
+func drawFeed(t *rapid.T, sh *model) Op {
+	op := Op{K: "feed", N: pick(t, "feed-n", []int{3, 3, 4, 3, 2, 1})}
+	if ids := fragileRunning(sh); len(ids) > 0 && often(t, "feed-steer", 85) {
+		op.DBRPs = []DBRP{pick(t, "feed-dbrp", sh.tasks[pick(t, "feed-task", ids)].RunDBRPs)}
+	} else {
+		op.DBRPs = []DBRP{pick(t, "feed-dbrp", feedPool)}
+	}
+	return op
+}
+
 func drawOp(t *rapid.T, r *kit.Rec, sh *model) Op {
-	switch k := rapid.IntRange(0, 27).Draw(t, "op"); {
+	switch k := rapid.IntRange(0, 29).Draw(t, "op"); {
+	case k >= 28:
+		return drawFeed(t, sh)
 	case k < 5:
 		return drawCreate(t, r, sh)
 	case k < 11:
@@ -460,7 +498,7 @@ func drawOp(t *rapid.T, r *kit.Rec, sh *model) Op {
 // works on), drawn like everything else.
 func drawScenario(t *rapid.T) []Op {
 	tid := pick(t, "sc-tmpl", tmplIDs)
-	script := pick(t, "sc-script", []string{tIntTh, tIntTh, tWindow, tDBRP})
+	script := pick(t, "sc-script", []string{tIntTh, tIntTh, tWindow, tDBRP, tFragile})
 	ops := []Op{{K: "tcreate", ID: tid, Script: script}}
 	n := rapid.IntRange(0, 3).Draw(t, "sc-tasks")
 	ids := rapid.Permutation(taskIDs).Draw(t, "sc-ids")
@@ -567,7 +605,90 @@ func genHistory(t *rapid.T, r *kit.Rec, excluded map[string]bool, n int, restart
 			push(Op{K: "restart"})
 		}
 	}
+	// run-time fault: the execution of an enabled task ends with a node error, typically after
+	// an accepted request has changed the stored definition without starting the task again
+	if rare(t, "fault-tail", 30) {
+		ids := fragileRunning(sh)
+		if len(ids) == 0 {
+			// a task whose execution can be ended: created enabled, or an existing task made so
+			if free := freeIDs(sh); len(free) > 0 && often(t, "ft-create", 70) {
+				push(Op{K: "create", ID: pick(t, "ft-id", free), Script: pick(t, "ft-script", []string{sFragile, sFragile2}),
+					DBRPs: pick(t, "ft-dbrps", dbrpPool), Status: "enabled"})
+			} else if plain := plainTasks(sh); len(plain) > 0 {
+				id := pick(t, "ft-id", plain)
+				op := Op{K: "update", ID: id, Script: pick(t, "ft-script", []string{sFragile, sFragile2}), Status: "enabled"}
+				if len(sh.tasks[id].DBRPs) == 0 || len(scriptDBRPs(sh.tasks[id].Script)) > 0 {
+					op.DBRPs = pick(t, "ft-dbrps", dbrpPool)
+				}
+				if sh.tasks[id].Enabled {
+					push(Op{K: "disable", ID: id})
+				}
+				push(op)
+			}
+			ids = fragileRunning(sh)
+		}
+		if len(ids) > 0 {
+			id := pick(t, "ft-target", ids)
+			for i, n := 0, pick(t, "ft-patches", []int{1, 1, 2, 0}); i < n; i++ {
+				push(drawPatch(t, r, sh, id))
+			}
+			if tk, ok := sh.tasks[id]; ok && len(tk.RunDBRPs) > 0 {
+				push(Op{K: "feed", N: pick(t, "ft-n", []int{3, 4}), DBRPs: []DBRP{pick(t, "ft-dbrp", tk.RunDBRPs)}})
+			}
+			for i, n := 0, pick(t, "ft-more", []int{0, 0, 1, 2}); i < n; i++ {
+				push(drawOp(t, r, sh))
+			}
+		}
+	}
 	return ops, sh
+}
+
+func freeIDs(sh *model) []string {
+	var out []string
+	for _, id := range taskIDs {
+		if _, ok := sh.tasks[id]; !ok {
+			out = append(out, id)
+		}
+	}
+	return out
+}
+
+func plainTasks(sh *model) []string {
+	var out []string
+	for _, id := range sortedKeys(sh.tasks) {
+		if sh.tasks[id].Tmpl == "" && id != badTaskID {
+			out = append(out, id)
+		}
+	}
+	return out
+}
+
+// drawPatch: an update of task id that leaves id and status alone, i.e. one that changes
+// the stored definition and not the running task.
+func drawPatch(t *rapid.T, r *kit.Rec, sh *model, id string) Op {
+	op := Op{K: "update", ID: id}
+	cur := sh.tasks[id]
+	templated := cur != nil && cur.Tmpl != ""
+	switch k := rapid.IntRange(0, 9).Draw(t, "patch"); {
+	case k < 4 && !templated:
+		op.Script = pick(t, "patch-script", []string{sStream0, sStream1, sFragile, sFragile2, sStreamD})
+		if cur != nil && len(scriptDBRPs(cur.Script)) > 0 && len(scriptDBRPs(op.Script)) == 0 {
+			op.DBRPs = pick(t, "dbrps", dbrpPool)
+		}
+	case k < 7:
+		op.DBRPs = pick(t, "dbrps", dbrpPool)
+	case k < 9:
+		if templated {
+			op.Vars = pick(t, "patch-vars", []map[string]Var{vInt, vExtra})
+		} else {
+			op.Vars = pick(t, "patch-vars", []map[string]Var{vInt, vFloat, vExtra})
+		}
+	default:
+		// anything an update can ask for
+		op = drawUpdate(t, r, sh)
+		op.ID = id
+	}
+	return op
 }
 
 func genCatalogue(r *kit.Rec) func(t *rapid.T) Case {
